@@ -21,6 +21,7 @@ package main
 // ghost state in the refuted clause, slices longer than 256 elements in every model.
 
 import (
+	"go/ast"
 	"bytes"
 	"context"
 	"encoding/json"
@@ -356,6 +357,12 @@ func (r *replayer) emit(n *rnode, target string) {
 		for i, f := range n.fields {
 			if n.fnames[i] == "_" {
 				continue
+			}
+			if !ast.IsExported(n.fnames[i]) {
+				// an unexported field of another package's struct cannot be set from the test
+				if nt, ok := n.t.(*types.Named); ok && nt.Obj().Pkg() != nil && nt.Obj().Pkg() != r.pkg {
+					continue
+				}
 			}
 			if f.kind == "unsupported" {
 				// left at its zero value; if the counterexample depends on it the replay
